@@ -913,9 +913,14 @@ def _probe_failed_restore(spec):
         repo2 = R.unlock(be, concurrent=n)
         state['armed'] = True
         t0 = time.monotonic()
+        async def command():
+            # like a real command whose loop still has a default-executor job (e.g. a name look-up of a network backend) when it
+            # ends: `asyncio.run` then keeps serving callbacks for a moment before it closes the loop
+            asyncio.get_running_loop().run_in_executor(None, time.sleep, spec.get('linger', 0.25))
+            return await repo2.restore(path=Path(tgt))
         try:
             with R.quiet():
-                asyncio.run(repo2.restore(path=Path(tgt)))
+                asyncio.run(command())
             out['raised'] = None
         except BaseException as e:  # noqa: BLE001
             out['raised'] = type(e).__name__
